@@ -1,7 +1,9 @@
 package node
 
 import (
+	"encoding/base64"
 	"fmt"
+	"math"
 	"unicode/utf8"
 
 	"github.com/freeconf/yang/meta"
@@ -46,11 +48,61 @@ func (check fieldConstraints) checkType(t *meta.Type, v val.Value) error {
 			}
 		})
 		return err
+	case val.FmtBinary:
+		// RFC7950 Sec 9.8.1 the length of a binary is its number of octets
+		var err error
+		val.ForEach(v, func(_ int, item val.Value) {
+			if err != nil {
+				return
+			}
+			octets, isOctets := item.Value().([]byte)
+			if !isOctets {
+				// the items of a binary leaf-list are kept as their base64 text
+				octets, _ = base64.StdEncoding.DecodeString(item.String())
+			}
+			n := val.Int32(len(octets))
+			for _, length := range t.Length() {
+				if lerr := length.CheckValue(n); lerr != nil {
+					err = fmt.Errorf("binary length %d outside allowed lengths %s", len(octets), length)
+					return
+				}
+			}
+		})
+		return err
+	case val.FmtDecimal64:
+		if err := check.checkFractionDigits(v, t); err != nil {
+			return err
+		}
 	}
 	if t.Format().IsNumeric() {
 		return check.checkRange(v, t)
 	}
 	return nil
+}
+
+// checkFractionDigits: a decimal64 has as many digits after the point as its type says and no
+// more (RFC7950 Sec 9.3.4)
+func (check fieldConstraints) checkFractionDigits(v val.Value, t *meta.Type) error {
+	digits := t.FractionDigits()
+	if digits <= 0 || digits > 18 {
+		return nil
+	}
+	var err error
+	val.ForEach(v, func(_ int, item val.Value) {
+		f, isFloat := item.Value().(float64)
+		if err != nil || !isFloat {
+			return
+		}
+		scaled := f * math.Pow10(digits)
+		if math.Abs(scaled) > 1<<52 {
+			// beyond what the representation can tell
+			return
+		}
+		if math.Abs(scaled-math.Round(scaled)) > 1e-6 {
+			err = fmt.Errorf("'%s' has more than %d fraction digits", item, digits)
+		}
+	})
+	return err
 }
 
 // an item of a union has to satisfy one of the members that hold values of its kind
@@ -67,7 +119,9 @@ func (check fieldConstraints) checkUnionItem(t *meta.Type, item val.Value) error
 		var err error
 		if member.Format().Single() == val.FmtUnion {
 			err = check.checkUnionItem(member, item)
-		} else if member.Format().Single() == item.Format().Single() {
+		} else if member.Format().Single() == item.Format().Single() ||
+			(member.Format().Single() == val.FmtBinary && item.Format().Single() == val.FmtString) {
+			// (the items of a list of binaries are kept as their base64 text)
 			err = check.checkType(member, item)
 		} else {
 			continue
